@@ -4,7 +4,7 @@ frame/message, JSON, config). Each part runs its parser on the implementation in
 checks the measured peak allocation against a bound linear in the bytes supplied."""
 import importlib
 
-PARTS = ['c03_http', 'c03_ws', 'c03_json', 'c03_conf']
+PARTS = ['c03_http', 'c03_ws', 'c03_wsmsg', 'c03_json', 'c03_conf']
 RULE = 'see coverage.part_rules'
 ASSUMPTIONS = []
 NEEDS_TOKIO = True
